@@ -61,7 +61,12 @@ NETWORKS['raman-lowpump'] = ('raman_edfa_example_network.json', 'eqpt_config.jso
 # the mesh example with the approximate GGN method, the NLI being evaluated for three channels that do not cover the
 # edges of the comb and inter-/extrapolated for the others
 NETWORKS['mesh-ggn'] = ('meshTopologyExampleV2.json', 'eqpt_config.json',
-                        {'nli_params': {'method': 'ggn_approx', 'computed_channels': [6, 12, 18]}})
+                        {'nli_params': {'method': 'ggn_approx', 'computed_channels': [10, 14, 20]}})
+# the OpenROADM v5 example designed for a low launch power: the boosters behind the -20 dBm ROADMs run at ~2 dB gain
+NETWORKS['sweden5-lowpower'] = NETWORKS['sweden5']
+# the EDFA example without its amplifier, designed with no_insert_edfas: an unamplified link (fibre NLI, no ASE at all)
+NETWORKS['edfa-unamplified'] = NETWORKS['edfa']
+DESIGN_ARGS = {'sweden5-lowpower': dict(args_power=-18), 'edfa-unamplified': dict(no_insert_edfas=True)}
 DESIGN_BANDS = [{'f_min': 191.3e12, 'f_max': 196.0e12}, {'f_min': 187.0e12, 'f_max': 190.0e12}]
 WIDE_BAND = dict(type_variety='wide_band', f_min=186.0e12, f_max=196.2e12, allowed_for_design=False)
 
@@ -100,6 +105,14 @@ def _variant(name, eqpt_json, topo_json):
                     {'from_degree': f'west edfa in Lannion_CAS to {a}', 'to_degree': f'east edfa in Lannion_CAS to {b}',
                      'impairment_id': next(ids)}
                     for a in sites for b in sites if a != b and (a, b) != ('Morlaix', 'Corlay')]
+    if name == 'edfa-unamplified':
+        amps = {e['uid'] for e in topo_json['elements'] if e['type'] == 'Edfa'}
+        for a in amps:
+            before = next(c['from_node'] for c in topo_json['connections'] if c['to_node'] == a)
+            after = next(c['to_node'] for c in topo_json['connections'] if c['from_node'] == a)
+            topo_json['connections'] = [c for c in topo_json['connections'] if a not in (c['from_node'], c['to_node'])]
+            topo_json['connections'].append({'from_node': before, 'to_node': after})
+        topo_json['elements'] = [e for e in topo_json['elements'] if e['uid'] not in amps]
     if name == 'raman-lowpump':
         for elem in topo_json['elements']:
             if elem['type'] == 'RamanFiber':
@@ -110,7 +123,7 @@ def _variant(name, eqpt_json, topo_json):
     return eqpt_json, topo_json
 
 
-VARIANTS = {'multiband-wide', 'mesh-mixed', 'raman-lowpump'}
+VARIANTS = {'multiband-wide', 'mesh-mixed', 'raman-lowpump', 'edfa-unamplified'}
 
 
 # ------------------------------------------------------------------------------------------------- projections
@@ -207,10 +220,12 @@ NOT_LOADED = {}
 LOAD_NOTES = {}
 
 
-def network(name):
-    """(designed network, equipment, reference request, sim_params name) of a shipped example; None if it does
-    not load"""
-    if name in _LOADED:
+def network(name, service_req=None, initial_spectrum=None):
+    """(designed network, equipment, reference request, sim_params name) of a shipped example or variant; None if it
+    does not load.  With service_req (and initial_spectrum) the network is loaded afresh and designed the way the
+    transmission example does for a service: designed_network(service_req=..., initial_spectrum=...); the request
+    returned by that call is the one to propagate (not cached)."""
+    if service_req is None and name in _LOADED:
         return _LOADED[name]
     from gnpy.tools.json_io import load_equipments_and_configs, load_network, load_json, network_from_json
     from gnpy.tools.worker_utils import designed_network
@@ -233,9 +248,16 @@ def network(name):
                 net = network_from_json(load_json(EX / topo), eq)
                 LOAD_NOTES[name] = f'load_network failed ({type(e1).__name__}); loaded with network_from_json(load_json())'
         with sim_params(sp):
-            net, req, _ = designed_network(eq, net)
+            if service_req is not None:
+                sreq = service_req(eq)
+                net, req, _ = designed_network(eq, net, service_req=sreq, initial_spectrum=initial_spectrum,
+                                               **DESIGN_ARGS.get(name, {}))
+                return net, eq, req, sp
+            net, req, _ = designed_network(eq, net, **DESIGN_ARGS.get(name, {}))
         res = (net, eq, req, sp)
     except Exception as e:                          # noqa
+        if service_req is not None:
+            raise
         NOT_LOADED[name] = f'{type(e).__name__}: {str(e)[:200]}'
     _LOADED[name] = res
     return res
@@ -320,21 +342,25 @@ def amp_bands(path):
     return [bands_of(el) for el in path if isinstance(el, (Edfa, Multiband_amplifier))]
 
 
-def auto_mode_request(eq, src, dst, trx_type, spacing):
-    """a service without mode, loaded like any service file: the transceiver mode is chosen by
+def service_request(eq, src, dst, trx_type, spacing, trx_mode=None):
+    """a service loaded like any service file.  Without mode the transceiver mode is chosen by
     propagate_and_optimize_mode (one propagation per baud rate, one update_snr per candidate mode)"""
     from gnpy.tools.json_io import requests_from_json
     data = {'path-request': [{
-        'request-id': f'auto-{trx_type}-{int(spacing / 1e9)}', 'source': src, 'destination': dst, 'src-tp-id': src,
-        'dst-tp-id': dst, 'bidirectional': False,
-        'path-constraints': {'te-bandwidth': {'technology': 'flexi-grid', 'trx_type': trx_type, 'trx_mode': None,
+        'request-id': f'svc-{trx_type}-{trx_mode}-{int(spacing / 1e9)}', 'source': src, 'destination': dst,
+        'src-tp-id': src, 'dst-tp-id': dst, 'bidirectional': False,
+        'path-constraints': {'te-bandwidth': {'technology': 'flexi-grid', 'trx_type': trx_type, 'trx_mode': trx_mode,
                                               'spacing': spacing, 'path_bandwidth': 100e9}}}]}
     r = requests_from_json(data, eq)[0]
     r.nodes_list, r.loose_list = [dst], ['STRICT']
     return r
 
 
-def record(name, netname, src, dst, spectrum=None, ref=None, auto_mode=None, **over):
+def auto_mode_request(eq, src, dst, trx_type, spacing):
+    return service_request(eq, src, dst, trx_type, spacing, None)
+
+
+def record(name, netname, src, dst, spectrum=None, ref=None, auto_mode=None, via=None, service=None, **over):
     """run the real propagate() - or, with auto_mode=(trx_type, spacing), the real propagate_and_optimize_mode() -
     once on a fresh copy of the path; returns (trace, side) where trace is the integer trace judged by TLC and side
     keeps what a human needs to read a violation (exception text, element uids).  The automatic mode selection
@@ -342,12 +368,31 @@ def record(name, netname, src, dst, spectrum=None, ref=None, auto_mode=None, **o
     reports when the call returns."""
     import gnpy.topology.request as rq
     from gnpy.core.exceptions import SpectrumError
-    net, eq, base_req, sp = network(netname)
-    if auto_mode:
+    if service:
+        # the transmission-example flow for a service with a user spectrum: the request to propagate is the one
+        # designed_network() returns for (service_req, initial_spectrum); service = (trx_type, trx_mode, spacing)
+        net, eq, req, sp = network(netname, service_req=lambda e: service_request(e, src, dst, service[0], service[2],
+                                                                                 service[1]),
+                                   initial_spectrum=spectrum)
+        base_req = req
+    else:
+        net, eq, base_req, sp = network(netname)
+    if service:
+        pass
+    elif auto_mode:
         req = auto_mode_request(eq, src, dst, *auto_mode)
     else:
         req = make_request(base_req, src, dst, spectrum, **over)
-    path = copy.deepcopy(rq.compute_constrained_path(net, req))
+    if via:
+        # a route made of legs concatenated through the transponders of the `via` sites (each crossed once, its ROADM
+        # twice: drop then add), handed to propagate() as one path
+        stops = [src] + list(via) + [dst]
+        legs = [rq.compute_constrained_path(net, make_request(base_req, a, b)) for a, b in zip(stops[:-1], stops[1:])]
+        if any(len(leg) < 2 for leg in legs):
+            raise Machinery(f'{name}: no route along {stops} in {netname}')
+        path = copy.deepcopy(legs[0] + [el for leg in legs[1:] for el in leg[1:]])
+    else:
+        path = copy.deepcopy(rq.compute_constrained_path(net, req))
     if len(path) < 2:
         raise Machinery(f'{name}: no route from {src} to {dst} in {netname}')
     labels = Labels()
@@ -479,22 +524,50 @@ def scenarios(tier, seed):
     def std(f_mhz, w=50_000, b=32_000, lab='x', p=1e-3):
         return (hz(f_mhz), b * 1e6, w * 1e6, lab, p, 0.0, 40.0, 0.15)
 
-    def auto(tag, netname, k, trx_type, spacing):
+    def auto(tag, netname, k, trx_type, spacing, first=()):
         def go():
             net = network(netname)
             if net is None:
                 return []
+            pairs = list(first) + [p for p in seeded_pairs(net[0], rng, k) if p not in first]
             return [record(f'{netname}:{tag}:{s}->{d}', netname, s, d, auto_mode=(trx_type, spacing))
-                    for s, d in seeded_pairs(net[0], rng, k)]
+                    for s, d in pairs[:max(k, len(first))]]
+        jobs.append(go)
+
+    def via_route(tag, netname, k):
+        """routes of two legs concatenated through the transponder of an intermediate site"""
+        def go():
+            net = network(netname)
+            if net is None:
+                return []
+            trx = transceivers(net[0])
+            out = []
+            for s, d in seeded_pairs(net[0], rng, k):
+                mids = [m for m in trx if m not in (s, d)]
+                m = rng.choice(mids)
+                out.append(record(f'{netname}:{tag}:{s}->{m}->{d}', netname, s, d, via=[m]))
+            return out
         jobs.append(go)
 
     thorough = tier == 'thorough'
     # --- mesh V2 (single band, Fused nodes, several amplifier models)
     uniform('uniform', 'mesh', 20 if thorough else 2)
+    via_route('two-legs-through-a-transponder', 'mesh', 4 if thorough else 1)
     uniform('uniform-64G-75GHz+10dBm', 'mesh', 2 if thorough else 1, baud_rate=64e9, spacing=75e9, tx_power=1e-2)
     # automatic mode selection: several candidate modes are evaluated on one propagation
-    auto('auto-mode-Voyager-75GHz', 'mesh', 6 if thorough else 3, 'Voyager', 75e9)
+    # (the longest route of the example first: its highest-rate mode is not feasible, a second one is evaluated)
+    auto('auto-mode-Voyager-75GHz', 'mesh', 6 if thorough else 3, 'Voyager', 75e9,
+         first=[('trx Lannion_CAS', 'trx Vannes_KBE')])
     auto('auto-mode-Voyager-50GHz', 'mesh', 6 if thorough else 2, 'Voyager', 50e9)
+    # the transmission-example flow for a service with a user spectrum: designed_network(service_req, initial_spectrum)
+    def service_with_spectrum():
+        net = network('mesh')
+        if net is None:
+            return []
+        return [record(f'mesh:service+initial_spectrum2:{s}->{d}', 'mesh', s, d,
+                       shipped_spectrum('initial_spectrum2.json'), service=('Voyager', 'mode 1', 50e9))
+                for s, d in seeded_pairs(net[0], rng, 2 if thorough else 1)]
+    jobs.append(service_with_spectrum)
     with_spectrum('initial_spectrum1', 'mesh', lambda: shipped_spectrum('initial_spectrum1.json'))
     with_spectrum('initial_spectrum2', 'mesh', lambda: shipped_spectrum('initial_spectrum2.json'))
     with_spectrum('one-carrier', 'mesh', lambda: carriers([std(0)]), permute=False)
@@ -512,7 +585,14 @@ def scenarios(tier, seed):
     # --- multi band: C+L path, mixed multi-band / single-band path, single-band path of the same network
     mb = lambda: shipped_spectrum('multiband_spectrum.json')           # noqa
     with_spectrum('multiband_spectrum', 'multiband', mb, pair=('trx Site_A', 'trx Site_D'))
-    with_spectrum('multiband_spectrum', 'multiband', mb, pair=('trx Site_D', 'trx Site_L'), permute=thorough)
+    if thorough:
+        with_spectrum('multiband_spectrum', 'multiband', mb, pair=('trx Site_D', 'trx Site_L'))
+    # bands carrying different symbol rates: 32 GBaud / 50 GHz in C, 64 GBaud / 75 GHz in L
+    mixed_rate = lambda: carriers([(hz(-1_100_000 + 50_000 * k), 32e9, 50e9, 'C-32G', 1e-3, 0.0, 40.0, 0.15)       # noqa
+                                   for k in range(40 if thorough else 24)]
+                                  + [(hz(-6_100_000 + 75_000 * k), 64e9, 75e9, 'L-64G', 1e-3, 0.0, 38.0, 0.15)
+                                     for k in range(30 if thorough else 16)])
+    with_spectrum('mixed-rate-bands', 'multiband', mixed_rate, pair=('trx Site_A', 'trx Site_D'), permute=thorough)
     # the same amplifiers met in both orders: wide single-band first / multi-band first
     with_spectrum('multiband_spectrum', 'multiband-wide', mb, pair=('trx Site_L', 'trx Site_D'), permute=thorough)
     with_spectrum('multiband_spectrum', 'multiband-wide', mb, pair=('trx Site_D', 'trx Site_L'), permute=False)
@@ -532,15 +612,26 @@ def scenarios(tier, seed):
                   pair=('trx Site_A', 'trx Site_D'), permute=False)
     uniform('uniform', 'multiband', 8 if thorough else 1)
     # --- OpenROADM, EDFA example, fused ROADM, Raman, CORONET
-    uniform('uniform', 'sweden5', 8 if thorough else 1)
-    uniform('uniform', 'edfa', 1)
+    uniform('uniform', 'sweden5-lowpower', 4 if thorough else 1)
+    if thorough:
+        uniform('uniform', 'sweden5', 8)
+    uniform('uniform', 'edfa-unamplified', 1)
+    if thorough:
+        uniform('uniform', 'edfa', 1)
+    # automatic mode selection with modes that define CD / PMD / PDL penalties, on long routes
+    auto('auto-mode-OpenROADM-87.5GHz', 'sweden5', 6 if thorough else 3, 'OpenROADM MSA ver. 5.0', 87.5e9)
     uniform('uniform', 'fusedroadm', 2 if thorough else 1)
     with_spectrum('seeded-mixed', 'fusedroadm', lambda: carriers(seeded_carriers(rng, -1_800_000, 2_000_000, 12)))
     with_spectrum('raman-mixed', 'raman-lowpump', lambda: carriers(seeded_carriers(rng, -1_800_000, 2_000_000, 6)),
                   permute=thorough)
-    # NLI computed for a few channels only and extrapolated, on a non-flat comb (at least 18 carriers) and on the grid
-    with_spectrum('seeded-mixed', 'mesh-ggn', lambda: carriers(seeded_carriers(rng, -1_800_000, 2_000_000, 24)),
-                  permute=False)
+    # NLI computed for a few channels only (none at the edges, two of them across a 5 dB power step) and inter- /
+    # extrapolated for the others, on non-flat combs of 24 carriers and on the grid
+    two_level = lambda: carriers([(hz(-600_000 + 50_000 * k), 32e9, 50e9, 'low' if k < 12 else 'high', 1e-3,       # noqa
+                                   0.0 if k < 12 else 5.0, 40.0, 0.15) for k in range(24)])
+    with_spectrum('two-power-levels', 'mesh-ggn', two_level, permute=False)
+    if thorough:
+        with_spectrum('seeded-mixed', 'mesh-ggn', lambda: carriers(seeded_carriers(rng, -1_800_000, 2_000_000, 24)),
+                      permute=False)
     uniform('uniform', 'mesh-ggn', 3 if thorough else 1)
     # fibres of either dispersion sign, ROADMs with detailed per-path impairment profiles
     uniform('uniform', 'mesh-mixed', 8 if thorough else 2)
